@@ -161,20 +161,33 @@ impl fmt::Display for Expr {
                     }
                     recurse(&binop.left, fmt, succ)?;
                     write!(fmt, "{}", binop.op.symbol())?;
-                    recurse(&binop.right, fmt, op_prec)?;
+                    // Only `^` is right associative, the right-hand side
+                    // of everything else needs parens at the same level.
+                    if binop.op == BinOpType::Pow {
+                        recurse(&binop.right, fmt, op_prec)?;
+                    } else {
+                        recurse(&binop.right, fmt, succ)?;
+                    }
                     if prec < op_prec {
                         write!(fmt, ")")?;
                     }
                     Ok(())
                 }
                 Expr::UnaryOp(ref unaryop) => match unaryop.op {
-                    UnaryOpType::Positive => {
-                        write!(fmt, "+")?;
-                        recurse(&unaryop.expr, fmt, Precedence::Plus)
-                    }
-                    UnaryOpType::Negative => {
-                        write!(fmt, "-")?;
-                        recurse(&unaryop.expr, fmt, Precedence::Plus)
+                    UnaryOpType::Positive | UnaryOpType::Negative => {
+                        if prec < Precedence::Plus {
+                            write!(fmt, "(")?;
+                        }
+                        if unaryop.op == UnaryOpType::Positive {
+                            write!(fmt, "+")?;
+                        } else {
+                            write!(fmt, "-")?;
+                        }
+                        recurse(&unaryop.expr, fmt, Precedence::Plus)?;
+                        if prec < Precedence::Plus {
+                            write!(fmt, ")")?;
+                        }
+                        Ok(())
                     }
                     UnaryOpType::Degree(ref suffix) => {
                         if prec < Precedence::Mul {
@@ -197,7 +210,18 @@ impl fmt::Display for Expr {
                     }
                     for expr in exprs.iter().skip(1) {
                         write!(fmt, " ")?;
-                        recurse(expr, fmt, Precedence::Pow)?;
+                        // A leading sign would be read as addition/subtraction.
+                        if let Expr::UnaryOp(UnaryOpExpr {
+                            op: UnaryOpType::Positive | UnaryOpType::Negative,
+                            ..
+                        }) = *expr
+                        {
+                            write!(fmt, "(")?;
+                            recurse(expr, fmt, Precedence::Pow)?;
+                            write!(fmt, ")")?;
+                        } else {
+                            recurse(expr, fmt, Precedence::Pow)?;
+                        }
                     }
                     if prec < Precedence::Mul {
                         write!(fmt, ")")?;
@@ -223,7 +247,7 @@ impl fmt::Display for Expr {
                         write!(fmt, "(")?;
                     }
                     write!(fmt, "{} of ", property)?;
-                    recurse(expr, fmt, Precedence::Div)?;
+                    recurse(expr, fmt, Precedence::Mul)?;
                     if prec < Precedence::Add {
                         write!(fmt, ")")?;
                     }
